@@ -1,4 +1,147 @@
-(** Harness glue for C07 (stub: no families yet). *)
-From Coq Require Import List String.
-From KV Require Import Glue.Val.
-Definition c07_run (fam : string) (args : list val) : option string := None.
+(** Harness glue for C07: from_u32 / encode_utf8 / decoding per block of 256 code points,
+    chars / char_indices histories, and the tie of Spec.Utf8 to the real std. *)
+From Coq Require Import List ZArith Bool String Ascii.
+From KV Require Import Base.Prelude Base.Deque Model.Utf8 Model.Str Model.Chars Spec.Utf8 Glue.Val Glue.C03.
+Import ListNotations.
+Local Open Scope string_scope.
+
+(** one hex digit by pattern matching (Val.hex_digit goes through unary [nat]: too slow for
+    a million code points per run; the two agree, see [hexd_ok]) *)
+Definition hexd (z : Z) : ascii :=
+  (match z with
+   | 0 => "0" | 1 => "1" | 2 => "2" | 3 => "3" | 4 => "4" | 5 => "5" | 6 => "6" | 7 => "7"
+   | 8 => "8" | 9 => "9" | 10 => "a" | 11 => "b" | 12 => "c" | 13 => "d" | 14 => "e" | 15 => "f"
+   | _ => "?"
+   end)%Z%char.
+Lemma hexd_ok : forallb (fun z => Ascii.eqb (hexd z) (hex_digit z)) (zs_from 0 16) = true.
+Proof. vm_compute. reflexivity. Qed.
+
+(** bytes as hex pairs, by shifts *)
+Fixpoint hexb (l : list Z) : string :=
+  match l with
+  | [] => ""
+  | b :: r => String (hexd (Z.shiftr b 4)) (String (hexd (Z.land b 15)) (hexb r))
+  end.
+
+(** lower-case hex without leading zeros, by shifts (no division) *)
+Fixpoint hex_go (fuel : nat) (z : Z) (acc : string) : string :=
+  match fuel with
+  | O => acc
+  | S f => let acc' := String (hexd (Z.land z 15)) acc in
+           if (z <? 16)%Z then acc' else hex_go f (Z.shiftr z 4) acc'
+  end.
+Definition show_hexZ (z : Z) : string := hex_go 20 z "".
+
+Fixpoint join (sep : string) (l : list string) : string :=
+  match l with
+  | [] => ""
+  | [x] => x
+  | x :: r => x ++ sep ++ join sep r
+  end.
+
+(* ------------------------------------------------------------------ code-point blocks *)
+
+(** from_u32: only the code points whose result is not [Some n] are listed *)
+Definition fu_dev (n : Z) : list string :=
+  match from_u32_m n with
+  | Some m => if (m =? n)%Z then [] else [show_hexZ n ++ ":" ++ show_hexZ m]
+  | None => [show_hexZ n ++ ":N"]
+  end.
+
+Definition enc_item (n : Z) : string :=
+  if is_scalarb n then hexb (encode_m n) else "-".
+
+(** decode the one-char string of [n] with chars().next() / next_back(); only deviations
+    from "yields n and leaves the empty string" are listed *)
+Definition dec_show (r : res (option (Z * chars_st))) : string :=
+  match r with
+  | Ok (Some (c, st)) => show_hexZ c ++ "+" ++ show_Z (zlen (c_this st))
+  | Ok None => "N"
+  | Panic p => show_panic p
+  | OutOfFuel => "!fuel"
+  end.
+Definition dec_dev (back : bool) (n : Z) : list string :=
+  if is_scalarb n then
+    let st := chars_init (encode_m n) in
+    let r := if back then chars_next_back st else chars_next st in
+    match r with
+    | Ok (Some (c, st')) =>
+        if ((c =? n) && (zlen (c_this st') =? 0))%Z then [] else [show_hexZ n ++ ":" ++ dec_show r]
+    | _ => [show_hexZ n ++ ":" ++ dec_show r]
+    end
+  else [].
+
+Definition c07_cp (start : Z) : string :=
+  let ns := zs_from start 256 in
+  show_fields
+    [("fu", join "," (flat_map fu_dev ns));
+     ("enc", join "," (map enc_item ns));
+     ("dec", join "," (flat_map (dec_dev false) ns));
+     ("decb", join "," (flat_map (dec_dev true) ns))].
+
+(* ------------------------------------------------------------------ iterator histories *)
+
+Fixpoint hist_of (s : string) : list end_ :=
+  match s with
+  | EmptyString => []
+  | String c r => (if Ascii.eqb c "B" then Back else Front) :: hist_of r
+  end.
+
+Definition flip (e : end_) : end_ := match e with Front => Back | Back => Front end.
+
+Section Run.
+  Variables St Item : Type.
+  Variable next next_back : St -> res (option (Item * St)).
+  Variable show_item : Item -> string.
+  Variable as_str : St -> view.
+  (** one entry per step: the item (or N) and where as_str() sits afterwards *)
+  Fixpoint steps (h : list end_) (st : St) : option (list string) :=
+    match h with
+    | [] => Some []
+    | e :: h' =>
+      match (match e with Front => next st | Back => next_back st end) with
+      | Ok None => consopt ("N@" ++ show_v (as_str st)) (steps h' st)
+      | Ok (Some (x, st')) => consopt ("S(" ++ show_item x ++ ")@" ++ show_v (as_str st')) (steps h' st')
+      | _ => None
+      end
+    end.
+  Definition show_steps (h : list end_) (st : St) : string :=
+    match steps h st with Some l => "[" ++ join "," l ++ "]" | None => "PANIC" end.
+End Run.
+
+Definition show_ic (p : Z * Z) : string := show_Z (fst p) ++ ":" ++ show_hexZ (snd p).
+
+Definition c07_iter (s : list Z) (h : list end_) : string :=
+  show_fields
+    [("chars", show_steps _ _ chars_next chars_next_back show_hexZ chars_as_str h (chars_init s));
+     ("rchars", show_steps _ _ rchars_next rchars_next_back show_hexZ chars_as_str h (chars_init s));
+     ("ci", show_steps _ _ cidx_next cidx_next_back show_ic cidx_as_str h (cidx_init s));
+     ("rci", show_steps _ _ rcidx_next rcidx_next_back show_ic cidx_as_str h (cidx_init s))].
+
+(* ------------------------------------------------------------------ Spec.Utf8 vs std *)
+
+Definition c07_utf8 (l : list Z) : string :=
+  if utf8 l then
+    show_fields
+      [("utf8", "T");
+       ("chars", show_list show_hexZ (Spec.Utf8.chars l));
+       ("ci", show_list show_ic (char_indices l))]
+  else "utf8=F".
+
+(** Spec.encode vs char::encode_utf8 and the std decoder, per block (scalar values only) *)
+Definition c07_specenc (start : Z) : string :=
+  let ns := zs_from start 256 in
+  join "," (map (fun n => if scalarb n then hexb (encode n) else "-") ns).
+
+Definition c07_run (fam : string) (args : list val) : option string :=
+  if String.eqb fam "c07.cp" then
+    match args with [n] => Some (c07_cp (as_Z n)) | _ => None end
+  else if String.eqb fam "c07.fu" then
+    match args with [n] => Some (show_opt show_hexZ (from_u32_m (as_Z n))) | _ => None end
+  else if String.eqb fam "c07.iter" then
+    match args with [s; h] => Some (c07_iter (as_bytes s) (hist_of (as_atom h))) | _ => None end
+  else if String.eqb fam "c07.utf8" then
+    match args with [l] => Some (c07_utf8 (as_bytes l)) | _ => None end
+  else if String.eqb fam "c07.specenc" then
+    match args with [n] => Some (c07_specenc (as_Z n)) | _ => None end
+  else None.
